@@ -45,6 +45,13 @@ def run(ctx):
       'algorithm-issued study metadata rides on SuggestTrials (scripted policy returns a MetadataDelta)',
   ]
   svc.run_rounds(ctx, 'C10', rounds(ctx), walks(ctx))
+  if ctx.thorough:
+    # the repository's own service tests, recorded and judged by VizierTraceLite.tla (step predicates of this property)
+    import c01_repotests
+    import tlc
+    with tlc.Scratch('c10_repotests') as d:
+      layer = c01_repotests.run(ctx, d)
+    ctx.coverage['traces_validated_against_impl'] = ctx.coverage.get('traces_validated_against_impl', 0) + layer['servicers_recorded']
   c10_namespace.run(ctx)
 
 
